@@ -127,6 +127,26 @@ def run_case(case):
         neval += len(xs)
         if g1.shape == one.shape and not np.allclose(g1, one, rtol=1e-9):
             bad("cdf_several_points_vs_single", {"several": g1, "single": one})
+        # a batch that also holds rows on / below the edge of the support (calm entries, -999 style fill values): the orthant
+        # integral of those rows is 0 (non-negative families), and they must not affect the other rows of the batch
+        REAL = ("NormalDistribution", "VonMisesDistribution", "GumbelR")
+        edge_rows, edge_dims = [], []
+        for d in range(n_dim):
+            if fams[d] in REAL:
+                continue
+            for v in (0.0, -0.7):
+                r = xs[0].copy()
+                r[d] = v
+                edge_rows.append(r)
+        if edge_rows:
+            mixed = np.vstack([xs[:1], np.array(edge_rows), xs[-1:]])
+            gm = np.asarray(model.cdf(mixed), dtype=float)
+            neval += 1
+            if gm.shape != (len(mixed),) or not np.allclose(gm[1:-1], 0.0, atol=1e-12):
+                bad("cdf_rows_outside_support_not_zero", {"rows": mixed, "cdf": gm})
+            elif not (np.isclose(gm[0], one[0], rtol=1e-9) and np.isclose(gm[-1], one[-1], rtol=1e-9)):
+                bad("cdf_several_points_vs_single", {"several": gm, "single_first_last": [one[0], one[-1]], "rows": mixed,
+                                                     "batch_contains_rows_outside_support": True})
     # ---------------- 3-D: marginal pdf of a conditional dimension (the argument re-ordering differs per dimension)
     for dim in case.get("marginal_pdf_dims", []):
         xv = float(np.quantile(S[:, dim], 0.6))
